@@ -133,9 +133,9 @@ func main() {
 		if res.Thorough() {
 			K = 6
 		} else {
-			// quick: three of the six configurations, rotating with the seed
-			o := int(res.Seed % uint64(len(cfgs)))
-			cfgs = []cfg{cfgs[o], cfgs[(o+2)%len(cfgs)], cfgs[(o+3)%len(cfgs)]}
+			// quick: LT/reactor/tcp (the epoll_ctl MOD paths), ET/reuseport/tcp and one of the others, rotating with the seed
+			rest := []cfg{cfgs[1], cfgs[2], cfgs[3], cfgs[4]}
+			cfgs = []cfg{cfgs[0], cfgs[5], rest[int(res.Seed%uint64(len(rest)))]}
 		}
 		if *vlib.FlagN > 0 {
 			K = int64(*vlib.FlagN)
